@@ -20,6 +20,7 @@ RULE = ("seeded tables: packed dtypes of 1-8 fields from i1..u8, f4, f8, bool, c
 TRUSTED = ["numpy ndarray.tobytes / dtype equality", "python ast-free dict/list equality for header values"]
 ASSUMPTIONS = ["at least one row; packed dtypes; header keys are strings other than the reserved underscore names",
                "header values are finite Python literals (no NaN)"]
+THOROUGH_ROUNDS = 6      # the thorough tier runs the generator over this many derived seeds
 REQUIRED = {"quick": {"C01.file": 1000, "C01.read": 6000, "C01.header": 2500},
             "thorough": {"C01.file": 10000, "C01.read": 70000, "C01.header": 25000}}
 WROUTES = ["sfile.write", "SFile.write", "io.write", "Recfile.write", "recfile.write", "sfile.write+append-new", "io.write+append-new"]
